@@ -285,10 +285,11 @@ package testdirectory
 //@   tags C15
 //@ pure muQuiet(d *Directory) bool = forallref(W, *bufio.Writer, G_guard[W] == &d.mu ==> (G_npend[W] == 0 && G_pendstr[W] == "") || G_werr[W])
 // the search handlers: lock obligations only (their functional behaviour is not under contract)
-// (A functional contract for the search handlers - "success iff some entry matches" - was attempted and
-// abandoned: it needs the closedness of the entry heap (every pointer stored in it points to an object that
-// already exists), which the memory model does not assert; without it the frame of AddAttribute cannot be
-// carried to the directory's own entries. The handlers are under contract for their lock obligations only.)
+// (A functional contract for the search handlers - "success iff some entry matches" - was attempted twice and
+// abandoned. It needs the closedness of the directory's lists (every stored pointer points to an allocated
+// object) as an additional assumption, restricted `modifies` on both loops, and well-formedness carried through
+// find; with all that the proof came down to two loop-1 invariants that the solvers did not discharge within the
+// limits, while find alone went from 20 s to 95 s. The handlers are under contract for their lock obligations only.)
 //@ func (*testdirectory.Directory).handleSearchUsers$1
 //@   requires hOK(w, r) && dirOK(d) && !held(&d.mu) && w.writerMu != &d.mu
 //@   panics any
